@@ -40,6 +40,10 @@ type c04Case struct {
 	Lines     []c04Line       `json:"lines"`
 	Options   []c04Line       `json:"options"`
 	Vars      map[string]mval `json:"vars"`
+	// FileTags are hashtags written before the first node; NodeTags is the value of a "tags:" header of the node. Neither
+	// belongs to any line or option.
+	FileTags []string `json:"file_tags,omitempty"`
+	NodeTags string   `json:"node_tags,omitempty"`
 }
 
 func (l c04Line) source(option bool) string {
@@ -71,7 +75,14 @@ func (l c04Line) source(option bool) string {
 
 func (c c04Case) script() string {
 	var b strings.Builder
-	b.WriteString("title: Start\n---\n")
+	for _, t := range c.FileTags {
+		b.WriteString("#" + t + "\n")
+	}
+	b.WriteString("title: Start\n")
+	if c.NodeTags != "" {
+		b.WriteString("tags: " + c.NodeTags + "\n")
+	}
+	b.WriteString("---\n")
 	if c.FailFirst {
 		b.WriteString("left over [b\nYou own {$undeclared_variable} things\n-> Buy for {nosuchfunction(1)} coins\n-> Leave\nseparator\n")
 	}
@@ -488,6 +499,12 @@ var c04Render = Register(Prop[c04Case]{
 	ID: "C04", Name: "rendering",
 	Gen: func(t *rapid.T) c04Case {
 		c := c04Case{Vars: map[string]mval{}, FailFirst: rapid.IntRange(0, 4).Draw(t, "failfirst") == 0}
+		if rapid.IntRange(0, 3).Draw(t, "filetags") == 0 {
+			c.FileTags = rapid.SampledFrom([][]string{{"filetag"}, {"chapter:one", "draft"}, {"t"}}).Draw(t, "ft")
+		}
+		if rapid.IntRange(0, 3).Draw(t, "nodetags") == 0 {
+			c.NodeTags = rapid.SampledFrom([]string{"intro", "a b c", "#hash like"}).Draw(t, "nt")
+		}
 		nl := rapid.IntRange(1, 3).Draw(t, "lines")
 		for i := 0; i < nl; i++ {
 			c.Lines = append(c.Lines, genC04Line(t, &c, false))
